@@ -457,6 +457,14 @@ pub fn explore_scenario(sc: &Scenario, n_sched: usize) -> ScenarioOutcome {
             });
             continue;
         }
+        if let Some(d) = &r.stamp_mismatch {
+            out.found.push(CFound {
+                property: "C08",
+                signature: "C08|start_block_not_height_at_acceptance|concurrent".into(),
+                detail: format!("threads [{kinds}] under {spec:?}: {d}"),
+                strat: replay.clone(),
+            });
+        }
         if !refs.contains(&r.projection) {
             if std::env::var("SIM_DEBUG").is_ok() {
                 eprintln!("[conc] schedule {:?}", sr.trace);
@@ -513,6 +521,15 @@ pub fn recheck(sc: &Scenario, spec: &Option<StratSpec>, property: &str, signatur
                         o.found.push(CFound { property: "C11", signature: sig, detail: d, strat: None });
                     } else if let Err(e) = &r.live {
                         o.found.push(CFound { property: "C11", signature: format!("C11|not_live|concurrent|{}", first_line(e)), detail: e.clone(), strat: None });
+                    } else if property == "C08" {
+                        if let Some(d) = &r.stamp_mismatch {
+                            o.found.push(CFound {
+                                property: "C08",
+                                signature: "C08|start_block_not_height_at_acceptance|concurrent".into(),
+                                detail: d.clone(),
+                                strat: None,
+                            });
+                        }
                     } else if !refs.contains(&r.projection) {
                         if std::env::var("SIM_DEBUG").is_ok() {
                             eprintln!("[conc] outcome  {}", serde_json::to_string(&r.projection).unwrap());
